@@ -31,7 +31,10 @@ MonitorAccepts == v \in 1..15 =>
   LET of == SetToSeq(Subset(v))
       val == OrAll(Flags, of)
       good == [v |-> val, text |-> RenderMask(v), merr |-> FALSE, back |-> val, uerr |-> FALSE, panic |-> FALSE,
-               str |-> RenderMask(v), of |-> of]
+               str |-> RenderMask(v), of |-> of, back2 |-> val, uerr2 |-> FALSE]
       lossy == [good EXCEPT !.text = <<>>, !.str = <<>>]
+      \* a parser that leaves a used variable untouched is refused
+      stale == [good EXCEPT !.back2 = Fit(W(255), 8)]
   IN ProbeBitmask(Flags, good) = {} /\ ProbeBitmask(Flags, lossy) # {}
+     /\ ProbeBitmask(Flags, stale) = {"round_trip_into_a_used_variable"}
 =============================================================================
